@@ -2,7 +2,7 @@
     regenerated from /repo's src/calculator/grammar.pest. [wf_grammar k_grammar = true] is computed:
     a grammar edit introducing left recursion / a nullable repetition makes it fail. *)
 From Cicada Require Import Base.Chars Base.Peg Gen.CalcGrammar Proofs.PegFuel.
-From Coq Require Import Arith List.
+From Coq Require Import Arith List Lia.
 
 Lemma k_grammar_wf : wf_grammar k_grammar = true.
 Proof. vm_compute. reflexivity. Qed.
@@ -37,3 +37,17 @@ Proof. vm_compute. reflexivity. Qed.
 Example nullable_rep_runs_out :
   ev (mkGrammar [(1, (MNormal, PRep (POpt (PStr [97]))))] None 0) 5000 (PRef 1) AtNon 0 [98] = PFuel.
 Proof. vm_compute. reflexivity. Qed.
+
+(** peg_fuel lies above the bound of the regenerated calculator grammar too *)
+Lemma k_peg_fuel_above_bound : forall s, (peg_bound k_grammar (length s) <= peg_fuel s)%nat.
+Proof.
+  intro s. unfold peg_bound, peg_fuel.
+  assert (HA : (g_A k_grammar <= 96)%nat) by (apply Nat.leb_le; vm_compute; reflexivity).
+  assert (HB : (g_K k_grammar * g_W k_grammar + g_W k_grammar <= 128)%nat) by (apply Nat.leb_le; vm_compute; reflexivity).
+  rewrite <- Nat.add_assoc. revert HA HB.
+  generalize (g_A k_grammar) (g_K k_grammar * g_W k_grammar + g_W k_grammar)%nat. intros A B HA HB.
+  pose proof (Nat.mul_le_mono_r _ _ (length s) HA). Lia.lia.
+Qed.
+
+Theorem k_parse_never_fuel : forall start s, parse_from k_grammar start s <> PFuel.
+Proof. intros start s. exact (k_peg_fuel_adequate start AtNon 0%nat s (peg_fuel s) (k_peg_fuel_above_bound s)). Qed.
